@@ -81,6 +81,9 @@ func (e *c11Env) stopHandler(self int) network.StreamHandler {
 // hopStream opens a hop stream from peer p over its k-th connection.
 func (e *c11Env) hopStream(p, k int) (network.Stream, error) {
 	c := e.conns[p][k]
+	if c == nil {
+		return nil, network.ErrNoConn
+	}
 	s, err := c.NewStream(context.Background())
 	if err != nil {
 		return nil, err
